@@ -47,6 +47,14 @@ CLAIMED = {
     text='Symbolic execution of the real Results queries and Problem population accessors on recorded individuals with solver-variable vectors/costs, every combination of generation tags and front numbers, and of epsilon_add on point sets of solver variables; pairing, ordering, optimum and max-min-max obligations hold for all values. The generational-distance clause is NOT decided (SciPy C kernel), only smoke-run.',
     note='<=3 individuals quick / <=4 thorough; epsilon_add <=2x2 (3x3 in 1-D) points; gd outside (listed under undecided in the evidence)',
     ref='DESIGN.md section 5 C17'),
+ 'C18': dict(
+    text='One symbolic step of each real swarm helper from an arbitrary state: update_particle_best (replaced iff the old best does not dominate the new position), speed_constriction / update_velocity incl. the PSOGA override (every component within half the range, all draws and the box symbolic), update_position for OMOPSO/SMPSO/PSOGA (sum or violated bound, velocity reversed or damped by 0.001, result inside the box, positions and velocities arbitrary reals), update_global_best from an arbitrary invariant-satisfying leader archive (size bound, mutual non-domination). All obligations unsat for all values within the size bounds.',
+    note='dimension <=2 quick / <=3 thorough; leader archive and swarm <=2 / <=3; random draws by contract; multi-generation behaviour only through the inductive step',
+    ref='DESIGN.md section 5 C18'),
+ 'C19': dict(
+    text='Symbolic execution of SurrogateModelEval / SurrogateModelPredict over request sequences where the hook decision, the outcome of each training, train_step and the initial trained state are solver choices (exhaustively forked) and objective values are symbolic; a reference automaton gives the expected counters, training data, retrain instants and return values; obligations per request.',
+    note='sequences <=4 quick / <=6 thorough; regressors themselves (scikit-learn, SMT) outside: train() of a harness subclass sets trained by symbolic choice',
+    ref='DESIGN.md section 5 C19'),
  'C20': dict(
     text='Symbolic execution of Individual.__eq__/__hash__ and of list membership, list.remove, list.index, Archive.remove and the duplicate test of generate over vectors of solver variables: equality iff all coordinates within 1e-10, symmetry, per-coordinate sensitivity, hash congruence, and exactness of membership/removal are SMT obligations for all vectors up to the length bound.',
     note='n<=4 quick / n<=6 thorough, lists <=3/4; hash() of a tuple of proxies modelled as an uninterpreted function of its elements',
